@@ -61,7 +61,9 @@ def run(ctx):
         "configparser is not modelled: rights files are rendered from abstract sections and parsed by the real code; values are stripped and contain no '%'",
         "the LDAP `groups` branch of from_file is modelled as disabled (`_user_groups` empty, i.e. every auth back-end except ldap)",
         "pathutils.strip_path's `assert sanitize_path(path) == path` is dropped by the translator: theorems are used on sanitised paths",
-        "matcher fuel: theorems exclude the out-of-fuel answer; the correspondence treats an out-of-fuel answer of the model as a disagreement",
+        "matcher fuel: proved sufficient (C04_fullmatch_total); the correspondence still treats an out-of-fuel answer of the model as a disagreement",
+        "auth types: the rights classes only read configuration.get('auth','type'); every name of auth.INTERNAL_TYPES plus look-alikes of 'none' is "
+        "configured without loading the auth back-end",
     ]
     ctx.prove()
     sys.setrecursionlimit(10000)
@@ -113,6 +115,7 @@ def run(ctx):
                             violation("simple-write", "owner_write grants %r to %r outside the own home: %r" % (got, u, p),
                                       dict(backend=kind, verify=verify, user=u, path=p))
     ctx.count("cases:simple", len(cases_a))
+    auth_type_cases(ctx, users, paths, violation)
     ctx.log("simple back-ends: %d cases on the implementation" % len(cases_a))
     codes = product_cases(ctx, users, paths, cases_a)
     record(ctx, "simple", cases_a, codes)
@@ -245,6 +248,45 @@ def run(ctx):
     ctx.extra["monitor_failures"] = dict(mon_fail)
 
 
+def auth_type_cases(ctx, users, paths, violation):
+    """Every built-in auth type (and look-alikes of "none"): `_verify_user` must be off exactly for "none"
+    (glue obligation + correspondence with the REGENERATED RightsVerifyGen.verify_user), and the documented
+    behaviour must hold with each of them (a reduced user x path product; the full product runs for none/htpasswd)."""
+    from radicale import auth as auth_mod
+    types = list(dict.fromkeys(list(auth_mod.INTERNAL_TYPES) + ["None", "NONE", "none ", " none", "nonee", "non", "n", "remote_user2",
+                                                                "radicale_custom.auth", "http_x_remote_user ", "denyall2"]))
+    us = [u for u in ["", "a", "b", "tmp", "Tmp", ".*", "user@domain.test"] if u in users or u == ""]
+    ps = list(dict.fromkeys(paths[:ctx.n(30, 120)] + [p for p in paths if p in ("/", "/tmp", "/tmp/", "/tmp2/", "/tmp/cal/", "/tmp/cal/e.ics", "/Tmp/", "/a/", "/a/b", "/a/b/c")]))
+    vcases = []
+    for t in types:
+        try:
+            bk = simple_backends(t)
+        except Exception as e:
+            ctx.obligation("glue:_verify_user(auth %r)" % t, False, "cannot configure auth type %r: %r" % (t, e))
+            continue
+        want_verify = t != "none"
+        got_verify = {k: bk[k]._verify_user for k in SIMPLE}
+        ctx.obligation("glue:_verify_user(auth %r)" % t, all(v is want_verify for v in got_verify.values()),
+                       "_verify_user must be %r for auth type %r, is %r" % (want_verify, t, got_verify))
+        for k in SIMPLE:
+            vcases.append(((k, t), bool(bk[k]._verify_user)))
+        for kind in SIMPLE:
+            for u in us:
+                for p in ps:
+                    got = bk[kind].authorization(u, p)
+                    want = X.doc_simple(kind, want_verify, u, p)
+                    ctx.case(("simple-auth", t, kind, u, p), nontrivial=(p != "/"))
+                    if got != want:
+                        violation("simple", "%s(auth type %r).authorization(%r, %r) = %r, documented: %r" % (kind, t, u, p, got, want),
+                                  dict(backend=kind, auth_type=t, verify=want_verify, user=u, path=p, got=got, documented=want))
+    ctx.count("cases:simple-auth-types", len(types) * len(SIMPLE) * len(us) * len(ps))
+    ctx.count("auth-types", len(types))
+    hdr = X.HEADER + "Require RV.Gen.RightsVerifyGen.\nDefinition cls_bool (exp got : bool) : N := if Bool.eqb exp got then 0 else 1.\n"
+    codes = X.classify_cases(ctx, "c04_verify", "(fun kt => RightsVerifyGen.verify_user (snd kt))", "cls_bool", vcases,
+                             lambda kt: "(%d, %s)" % (SIMPLE.index(kt[0]), enc_str(kt[1])), enc_bool, shard=3000, header=hdr)
+    record(ctx, "verify_user", vcases, codes)
+
+
 def product_cases(ctx, users, paths, cases):
     """The simple back-ends on the full product users x paths, evaluated inside Coq: one file per
     (back-end, verify) sharing the user and path tables; `cases` is in the order of the nested loops
@@ -311,7 +353,7 @@ def replay(ctx, path):
     print(json.dumps(data, indent=1, default=str)[:3000])
     kind = rp.get("kind", "")
     if kind.startswith("simple"):
-        bk = simple_backends("htpasswd" if rp["verify"] else "none")[rp["backend"]]
+        bk = simple_backends(rp.get("auth_type") or ("htpasswd" if rp["verify"] else "none"))[rp["backend"]]
         got = bk.authorization(rp["user"], rp["path"])
         want = X.doc_simple(rp["backend"], rp["verify"], rp["user"], rp["path"])
         print("now: %r  documented: %r" % (got, want))
